@@ -21,6 +21,7 @@ import (
 	"github.com/ipfs/go-graphsync/panics"
 	"github.com/ipfs/go-graphsync/responsemanager/hooks"
 	"github.com/ipfs/go-graphsync/responsemanager/responseassembler"
+	"github.com/ipfs/go-graphsync/verifhook"
 )
 
 var log = logging.Logger("gs-queryexecutor")
@@ -111,6 +112,7 @@ func (qe *QueryExecutor) ExecuteTask(_ context.Context, pid peer.ID, task *peert
 			span.SetStatus(codes.Error, err.Error())
 		}
 	}
+	verifhook.Yield("qe.beforeFinishTask")
 	qe.manager.FinishTask(task, pid, err)
 	log.Debugw("finishing response execution", "id", rt.Request.ID(), "peer", pid.String(), "root_cid", rt.Request.Root().String())
 	return false
